@@ -112,7 +112,7 @@ def catalogue_classes():
     if _CATALOGUE is None:
         got = set()
         for fam in sorted(scenarios.SCENARIOS):
-            for j in range(6):
+            for j in range(4):
                 try:
                     sc = scenarios.build({"family": fam, "seed": j, "k": [j] * 8})
                     got |= sc.classes
@@ -168,7 +168,7 @@ def make_execute(obl, families=None):
         heap.push = push
 
         at = {"t": None, "by": Counter(), "first": None, "later": False, "cont_later": False, "handled": set(),
-              "inner": Counter()}
+              "inner": Counter(), "obj": {}}
 
         def on_event(event):
             t = event.time.nanoseconds
@@ -178,6 +178,7 @@ def make_execute(obl, families=None):
                 at["t"] = t
                 at["by"] = Counter()
             at["by"][c] += 1
+            at["obj"][c] = event.target
             if at["by"][c] > 2000 and at["by"][c] % 16 == 0 and not scenarios._is_lib(type(event.target)):
                 inner = _inner_lib_class(event)      # who is the harness worker blocked in?
                 if inner:
@@ -219,6 +220,11 @@ def make_execute(obl, families=None):
             dom = at["by"].most_common(1)[0][0] if at["by"] else "unknown"
             if dom not in all_entity_classes() and at["inner"]:
                 dom = at["inner"].most_common(1)[0][0]
+            else:
+                # a component that delegates the decision to a configured policy object: name the policy class too
+                pol = getattr(at["obj"].get(dom), "policy", None)
+                if pol is not None and scenarios._is_lib(type(pol)):
+                    dom = f"{dom}+{type(pol).__name__}"
             r.add(f"{P}/{obl}/spin/{dom}",
                   f"family {fam}: more than {max(20000, 200 * w)} deliveries at t={probe.spin_at} ns "
                   f"(workload {w}); per class at that instant: {dict(at['by'].most_common(4))}; "
